@@ -2,19 +2,20 @@
 """seedrun.py <patch.diff> <PROP> [<PROP>...] : apply a seeded change to /repo, run the given checks statically,
 undo the change. Prints one line per check: DETECTED / missed. Never commits anything in /repo."""
 import subprocess, sys, os
+REPO = os.environ.get("VERIF_REPO", "/repo")   # a scratch worktree can be named instead (development while /repo is busy)
 patch = os.path.abspath(sys.argv[1])
 props = sys.argv[2:]
-st = subprocess.run(["git", "-C", "/repo", "status", "--porcelain", "--untracked-files=no"], capture_output=True, text=True).stdout.strip()
+st = subprocess.run(["git", "-C", REPO, "status", "--porcelain", "--untracked-files=no"], capture_output=True, text=True).stdout.strip()
 if st:
     print("refusing: /repo has local modifications:\n" + st); sys.exit(2)
-r = subprocess.run(["git", "-C", "/repo", "apply", patch], capture_output=True, text=True)
+r = subprocess.run(["git", "-C", REPO, "apply", patch], capture_output=True, text=True)
 if r.returncode != 0:
-    subprocess.run(["git", "-C", "/repo", "checkout", "--", "."])
-    r = subprocess.run(["patch", "-p1", "-F3", "--no-backup-if-mismatch", "-d", "/repo", "-i", patch], capture_output=True, text=True)
+    subprocess.run(["git", "-C", REPO, "checkout", "--", "."])
+    r = subprocess.run(["patch", "-p1", "-F3", "--no-backup-if-mismatch", "-d", REPO, "-i", patch], capture_output=True, text=True)
     if r.returncode != 0:
         r.stderr = r.stdout + r.stderr
 if r.returncode != 0:
-    print("patch does not apply:", r.stderr[-400:]); subprocess.run(["git", "-C", "/repo", "checkout", "--", "."]); subprocess.run(["git","-C","/repo","reset","-q"]); sys.exit(2)
+    print("patch does not apply:", r.stderr[-400:]); subprocess.run(["git", "-C", REPO, "checkout", "--", "."]); subprocess.run(["git","-C",REPO,"reset","-q"]); sys.exit(2)
 try:
     for p in props:
         c = subprocess.run(["/verif/check", p], capture_output=True, text=True, cwd="/verif")
@@ -26,6 +27,6 @@ try:
         if c.returncode not in (0, 1):
             print(c.stdout[-800:], c.stderr[-800:])
 finally:
-    subprocess.run(["git", "-C", "/repo", "reset", "-q"])
-    subprocess.run(["git", "-C", "/repo", "checkout", "--", "."])
-    subprocess.run(["git", "-C", "/repo", "clean", "-fdq", "--", "biscuit-auth", "biscuit-parser", "biscuit-quote", "biscuit-capi"])
+    subprocess.run(["git", "-C", REPO, "reset", "-q"])
+    subprocess.run(["git", "-C", REPO, "checkout", "--", "."])
+    subprocess.run(["git", "-C", REPO, "clean", "-fdq", "--", "biscuit-auth", "biscuit-parser", "biscuit-quote", "biscuit-capi"])
